@@ -55,7 +55,7 @@ INVARIANTS
         run.design(res, "MCBestPath %s opt=%s" % (pool, o))
 
     # 2. behaviours -> real code -> traces, one batch per option setting
-    num = 60 if not thorough else 400
+    num = 120 if not thorough else 600
     for i, o in enumerate(opts):
         behs = run.replay_behaviours(o) if run.replay else \
             gen_behaviours(run, o, num, run.seed * 100 + i, 10 if thorough else 8)
